@@ -43,6 +43,9 @@ def build(*, prop, tier, seed, spec, runs, distinct_nontrivial, n_nontrivial, sa
           faultfree, ltime, wall, nw, det, rechecked, dones, violations, known_hits, harness_errors):
     from sim import rules
 
+    enabled = rules.ENABLED_FAULTS.get(prop)
+    if enabled is not None:
+        fired = {k: v for k, v in fired.items() if k in enabled}
     cov = {
         "evaluations": int(runs),
         "distinct_nontrivial": int(distinct_nontrivial),
